@@ -120,6 +120,12 @@ func CanDescend(v any) bool {
 // StructToMap converts a struct to a map using JSON tags for keys.
 // Nested structs are recursively converted to maps as well.
 func StructToMap(data any) map[string]any {
+	return structToMap(data, map[uintptr]struct{}{})
+}
+
+// structToMap is StructToMap with the set of pointers on the current path, so
+// that self-referential data ends the descent instead of overflowing the stack.
+func structToMap(data any, visiting map[uintptr]struct{}) map[string]any {
 	result := make(map[string]any)
 	if data == nil {
 		return result
@@ -131,6 +137,11 @@ func StructToMap(data any) map[string]any {
 		if rv.IsNil() {
 			return result
 		}
+		if _, cyclic := visiting[rv.Pointer()]; cyclic {
+			return result
+		}
+		visiting[rv.Pointer()] = struct{}{}
+		defer delete(visiting, rv.Pointer())
 		rv = rv.Elem()
 	}
 
@@ -161,7 +172,7 @@ func StructToMap(data any) map[string]any {
 
 		// Recursively convert nested structs
 		if fv.Kind() == reflect.Struct || (fv.Kind() == reflect.Ptr && fv.Type().Elem().Kind() == reflect.Struct) {
-			fieldValue = StructToMap(fieldValue)
+			fieldValue = structToMap(fieldValue, visiting)
 		}
 
 		result[tagName] = fieldValue
